@@ -49,6 +49,23 @@ func NewTicker(d time.Duration) *time.Ticker {
 	return time.NewTicker(d)
 }
 
+// timers of a (re-written) janitor are scaled the same way
+func AfterFunc(d time.Duration, f func()) *time.Timer {
+	d = d / time.Duration(TickerScale)
+	if d <= 0 {
+		d = 1
+	}
+	return time.AfterFunc(d, f)
+}
+
+func NewTimer(d time.Duration) *time.Timer {
+	d = d / time.Duration(TickerScale)
+	if d <= 0 {
+		d = 1
+	}
+	return time.NewTimer(d)
+}
+
 // ---- scheduler hook ---------------------------------------------------------------------------
 
 // Ev describes the synchronisation action the calling goroutine is about to perform.
